@@ -684,6 +684,13 @@ STD_PURE = {
 }
 
 
+# std mutators that overwrite / move elements without inspecting them
+STD_WRITE_ONLY = {
+    "fill", "rotate_left", "rotate_right", "insert", "push", "extend", "truncate",
+    "clear", "resize", "reserve", "swap", "push_str", "extend_from_slice",
+}
+
+
 def is_std_path(p):
     return p.startswith(("core::", "alloc::", "std::", "<core::", "<alloc::", "<std::")) or \
         " as core::" in p or " as alloc::" in p or " as std::" in p or p.startswith("<[") or p.startswith("<&")
@@ -708,6 +715,10 @@ class CallSite:
     def __init__(self):
         self.W = set()
         self.R = set()
+
+
+def is_ro_ty(tys):
+    return tys.startswith("&") and not tys.startswith("&mut")
 
 
 def is_ro(p):
@@ -1008,7 +1019,8 @@ class Effects:
                     continue
                 ty = a.get("ty") if a["k"] != "const" else a["ty"]["s"]
                 tys = ty if isinstance(ty, str) else (ty or {}).get("s", "")
-                cs.R |= {plain(p) for p in av}
+                if not (std and dname in STD_WRITE_ONLY and not is_ro_ty(tys)):
+                    cs.R |= {plain(p) for p in av}
                 if accessor:
                     el = STD_ACCESSORS[dname]
                     rets |= {trunc(p + (el,)) for p in av} if el else av
